@@ -72,17 +72,22 @@ func c36Finalize(run *ev.Run) {
 	shards := run.Pick(6, 7)
 	aheads := []int{5, 2}
 	run.Bounds["finalize.rounds"] = R
-	run.Bounds["finalize.trees"] = len(c36Trees(R))
+	run.Bounds["finalize.trees"] = len(c36Trees(R, 2))
 	run.Bounds["finalize.round_lists"] = "all blocks listed as notarized; each single block missing from its round's list"
 	run.Bounds["finalize.schedules"] = fmt.Sprintf("finalizeRound(1..%d) ascending: each once; for the full lists also each twice and each single round skipped (quick tier: only under ahead=5)", R+3)
 	run.Bounds["finalize.lfb_ticket_ahead"] = aheads
-	type job struct{ ahead, shard int }
+	type job struct{ ahead, shard, R, K int }
 	var jobs []job
 	for _, a := range aheads {
 		for s := 0; s < shards; s++ {
-			jobs = append(jobs, job{a, s})
+			jobs = append(jobs, job{a, s, R, 2})
 		}
 	}
+	// second family: up to 3 blocks per round (3 generators configured), 3 rounds
+	for s := 0; s < shards; s++ {
+		jobs = append(jobs, job{5, s, 3, 3})
+	}
+	run.Bounds["finalize.family_k3"] = fmt.Sprintf("3 rounds, 0..3 blocks per round, every rank->parent assignment, %d trees; lists: all / all but one; finalizeRound(1..6) each once; ahead=5; 3 generators", len(c36Trees(3, 3)))
 	results := make([]*c36FinResult, len(jobs))
 	errs := make([]error, len(jobs))
 	capped := make([]string, len(jobs))
@@ -93,13 +98,13 @@ func c36Finalize(run *ev.Run) {
 			defer wg.Done()
 			ctx, cancel := context.WithTimeout(context.Background(), time.Duration(run.Pick(300, 2400))*time.Second)
 			defer cancel()
-			cmd := exec.CommandContext(ctx, bin, "c36-finalize-worker", strconv.Itoa(R), strconv.Itoa(j.ahead), strconv.Itoa(j.shard), strconv.Itoa(shards))
+			cmd := exec.CommandContext(ctx, bin, "c36-finalize-worker", strconv.Itoa(j.R), strconv.Itoa(j.ahead), strconv.Itoa(j.shard), strconv.Itoa(shards), strconv.Itoa(j.K))
 			cmd.Stderr = os.Stderr
 			cmd.Env = append(os.Environ(), "VERIF_TIER="+run.Tier)
 			out, err := cmd.Output()
 			timedOut := ctx.Err() != nil
 			if err != nil && !timedOut {
-				errs[i] = fmt.Errorf("worker ahead=%d shard=%d: %v", j.ahead, j.shard, err)
+				errs[i] = fmt.Errorf("worker ahead=%d k=%d shard=%d: %v", j.ahead, j.K, j.shard, err)
 				return
 			}
 			// violations are streamed as they are found (VIOL lines); the report is the RESULT line
@@ -154,7 +159,7 @@ func c36Finalize(run *ev.Run) {
 		finalized += r.Finalized
 		rollbacks += r.Rollbacks
 		for _, o := range r.Outcomes {
-			run.Outcome(fmt.Sprintf("finalize|a%d|%s", jobs[i].ahead, o))
+			run.Outcome(fmt.Sprintf("finalize|a%d|k%d|%s", jobs[i].ahead, jobs[i].K, o))
 		}
 		viols = append(viols, r.Violations...)
 		if jobs[i].shard == 0 {
@@ -162,7 +167,7 @@ func c36Finalize(run *ev.Run) {
 				run.Sample(s)
 			}
 			for k, v := range r.Info {
-				run.Extra[fmt.Sprintf("finalize.a%d.%s", jobs[i].ahead, k)] = v
+				run.Extra[fmt.Sprintf("finalize.a%d.k%d.%s", jobs[i].ahead, jobs[i].K, k)] = v
 			}
 		}
 	}
@@ -219,10 +224,15 @@ func c36FinalizeWorker() {
 	shard, _ := strconv.Atoi(os.Args[4])
 	shards, _ := strconv.Atoi(os.Args[5])
 	thorough := os.Getenv("VERIF_TIER") == "thorough"
+	K := 2
+	if len(os.Args) > 6 {
+		K, _ = strconv.Atoi(os.Args[6])
+	}
 
 	w := world.New(world.Options{Viper: map[string]any{
 		"server_chain.lfb_ticket.ahead":           ahead,
 		"server_chain.block.finalization.timeout": "30m",
+		"server_chain.block.min_generators":       K,
 	}})
 	c := w.Chain
 	c.SetViewChanger(c36VC{})
@@ -234,7 +244,7 @@ func c36FinalizeWorker() {
 	}}
 	outcomes := map[string]struct{}{}
 
-	trees := c36Trees(R)
+	trees := c36Trees(R, K)
 	maxCall := R + 3
 	for ti := shard; ti < len(trees); ti += shards {
 		t := trees[ti]
@@ -257,7 +267,7 @@ func c36FinalizeWorker() {
 				twice = append(twice, r, r)
 			}
 			scheds = append(scheds, once)
-			if mi == 0 && (ahead == 5 || thorough) {
+			if mi == 0 && (ahead == 5 || thorough) && K == 2 {
 				scheds = append(scheds, twice)
 				for skip := 1; skip <= maxCall; skip++ {
 					var s []int
